@@ -453,6 +453,83 @@ def r3_monotone_test(ctx):
     ctx.check(ok, lp2, "strictness loop ends only when all values differ",
               "ties are no longer removed before returning (monotone but "
               "not strictly)")
+    # tie breaking moves values in the direction of the data: every bump
+    # added to an element is a positive multiple of (later - earlier)
+    Rf = Resolver(f)
+    BIG = 10 ** 9
+
+    def pos_(e):
+        """position of an index expression: (kind, value) or None"""
+        if isinstance(e, ast.UnaryOp) and isinstance(e.op, ast.USub) and \
+                isinstance(e.operand, ast.Constant):
+            return ("lit", BIG - e.operand.value)
+        if isinstance(e, ast.Constant) and isinstance(e.value, int):
+            return ("lit", e.value)
+        # equal[0], equal[-1] + c: positions inside a sorted index list
+        off = 0
+        if isinstance(e, ast.BinOp) and isinstance(e.op, ast.Add) and \
+                isinstance(e.right, ast.Constant):
+            off, e = e.right.value, e.left
+        if isinstance(e, ast.Subscript) and isinstance(e.value, ast.Name):
+            k = pos_(e.slice)
+            if k and k[0] == "lit":
+                return ("in:" + e.value.id, k[1] * 1000 + off)
+        return None
+
+    def direction(e, depth=0):
+        """+1: positive multiple of (later - earlier); -1: of (earlier -
+        later); None: not understood"""
+        if depth > 8:
+            return None
+        if isinstance(e, ast.BinOp) and isinstance(e.op, (ast.Mult,
+                                                          ast.Div)):
+            l, r = direction(e.left, depth + 1), positive(e.right)
+            if l is not None and r:
+                return l
+            if isinstance(e.op, ast.Mult):
+                l2, r2 = positive(e.left), direction(e.right, depth + 1)
+                if l2 and r2 is not None:
+                    return r2
+            return None
+        if isinstance(e, ast.BinOp) and isinstance(e.op, ast.Sub) and \
+                isinstance(e.left, ast.Subscript) and isinstance(
+                    e.right, ast.Subscript) and norm(e.left.value) == norm(
+                    e.right.value) == "smooth":
+            a, b = pos_(e.left.slice), pos_(e.right.slice)
+            if a and b and a[0] == b[0] and a[1] != b[1]:
+                return 1 if a[1] > b[1] else -1
+        return None
+
+    def positive(e):
+        if isinstance(e, ast.Constant) and isinstance(e.value, (int, float)):
+            return e.value > 0
+        if isinstance(e, ast.BinOp) and isinstance(e.op, ast.Add):
+            return all(positive(x) or nonneg(x) for x in (e.left, e.right)) \
+                and any(positive(x) for x in (e.left, e.right))
+        if isinstance(e, ast.BinOp) and isinstance(e.op, (ast.Mult,
+                                                          ast.Div)):
+            return positive(e.left) and positive(e.right)
+        if norm(e) in ("smooth.size", "len(smooth)", "data.size"):
+            return True
+        return False
+
+    def nonneg(e):
+        return (isinstance(e, ast.Call) and norm(e.func) == "len") or (
+            isinstance(e, ast.Name) and e.id in ("count", "ii", "idx"))
+    bumps = [n for n in ast.walk(lp2) if isinstance(n, ast.AugAssign)
+             and isinstance(n.op, ast.Add) and isinstance(
+                 n.target, ast.Subscript)
+             and norm(n.target.value) == "smooth"]
+    ctx.floor("tie-breaking bumps", len(bumps), 2)
+    for b in bumps:
+        d = direction(Rf.resolve(b.value))
+        if d is None:
+            raise Undecided("smooth_axis_monotone: tie-breaking bump "
+                            f"{norm(b)[:60]} not understood")
+        ctx.check(d > 0, b, f"bump {norm(b.target)} follows the data",
+                  f"the tie-breaking step `{norm(b)[:70]}` moves the value "
+                  "against the direction of the data (earlier minus later): "
+                  "the result is not strictly monotonic at that element")
     rets = [r for r in walk_no_nested(f, False) if isinstance(r, ast.Return)]
     ctx.check(len(rets) == 1 and norm(rets[0].value) == "smooth", f,
               "returns the smoothed array", "returns something else")
@@ -512,9 +589,20 @@ def r3_monotone_test(ctx):
                   f"the turning point is a {res} quantity of `{axis}`")
 
 
+def r4_pipeline_restarts_from_raw(ctx):
+    """a step owns its columns only if every pipeline starts from the
+    recorded data: columns edited by a step of an earlier pipeline must
+    not survive into a pipeline that does not contain that step"""
+    from .c06 import r1_restart_from_raw
+    r1_restart_from_raw(ctx)
+
+
 RULES = [
     ("C07-R1", "each step writes only the columns it owns", r1_ownership),
     ("C07-R2", "defining relation of every step", r2_relations),
     ("C07-R3", "exact monotonicity test, uniqueness loop, turning point",
      r3_monotone_test),
+    ("C07-R4", "every pipeline restarts from the recorded data (columns of "
+     "an earlier pipeline's steps do not survive)",
+     r4_pipeline_restarts_from_raw),
 ]
